@@ -27,6 +27,7 @@
 #include <cerrno>
 #include <csignal>
 #include <csetjmp>
+#include <cstdarg>
 #include <unistd.h>
 #include <fcntl.h>
 #include <sys/wait.h>
@@ -69,6 +70,10 @@ int verif_error_state(void);
 array_t *get_heart_beats(void);
 ssize_t __real_write(int, const void *, size_t);
 time_t __real_time(time_t *);
+FILE *__real_fopen(const char *, const char *);
+int __real_fclose(FILE *);
+int __real_rename(const char *, const char *);
+int __real_unlink(const char *);
 int __real_isatty(int);
 int __real_tcgetattr(int, struct termios *);
 int __real_tcsetattr(int, int, const struct termios *);
@@ -291,6 +296,9 @@ static void top_call(const std::vector<std::string> &op) {
 // --- op interpreter shared by top level and reactor ------------------------------------------
 // returns true if the op ends the current cycle (only meaningful inside backend)
 static std::vector<io_event_t> g_extra_events;
+static bool g_fslog = false;
+static long g_fscrash = 0;      // crash (exit) before the k-th file-system call from now
+
 
 static bool do_op(const std::vector<std::string> &op) {
   const std::string &o = op[0];
@@ -343,6 +351,8 @@ static bool do_op(const std::vector<std::string> &op) {
   if (o == "noproj") { for (size_t i = 1; i < op.size(); i++) g_proj.erase(op[i]); return false; }
   if (o == "snapshot") { project(); return false; }
   if (o == "revevents") { g_rev_events = true; return false; }
+  if (o == "fslog") { g_fslog = atoi(op[1].c_str()) != 0; return false; }
+  if (o == "fscrash") { g_fscrash = atol(op[1].c_str()); return false; }
   if (o == "fault") { verif_fault_countdown = atol(op[1].c_str()); return false; }
   if (o == "icount") { snprintf(b, sizeof b, "\"e\":\"ICount\",\"n\":%ld", verif_insn_count); emit(b); return false; }
   if (o == "izero") { verif_insn_count = 0; return false; }
@@ -403,8 +413,33 @@ static bool do_op(const std::vector<std::string> &op) {
 }
 
 // ------------------------------------------------------------------------------------------
+// file-system call boundaries (C16 crash points, C15 path log)
+static std::map<FILE *, std::string> g_fpath;
+static void fs_event(const char *fn, const std::string &p1, const std::string &p2 = "") {
+  if (g_fscrash > 0 && --g_fscrash == 0) { emit(std::string("\"e\":\"Crash\",\"before\":") + jstr(fn)); _exit(0); }
+  if (g_fslog) emit(std::string("\"e\":\"Fs\",\"fn\":") + jstr(fn) + ",\"path\":" + jstr(p1) + ",\"path2\":" + jstr(p2));
+}
+
+// ------------------------------------------------------------------------------------------
 // link-time interposers
 extern "C" {
+
+FILE *__wrap_fopen(const char *path, const char *mode) {
+  if (g_fslog || g_fscrash) fs_event("fopen", path ? path : "", mode ? mode : "");
+  FILE *f = __real_fopen(path, mode);
+  if (f && (g_fslog || g_fscrash)) g_fpath[f] = path;
+  return f;
+}
+int __wrap_fclose(FILE *f) {
+  if ((g_fslog || g_fscrash) && g_fpath.count(f)) { fs_event("fclose", g_fpath[f]); g_fpath.erase(f); }
+  return __real_fclose(f);
+}
+int __wrap_rename(const char *a, const char *b) { if (g_fslog || g_fscrash) fs_event("rename", a, b); return __real_rename(a, b); }
+int __wrap_unlink(const char *a) { if (g_fslog || g_fscrash) fs_event("unlink", a); return __real_unlink(a); }
+int __wrap_fprintf(FILE *f, const char *fmt, ...) {
+  if ((g_fslog || g_fscrash) && g_fpath.count(f)) fs_event("fprintf", g_fpath[f]);
+  va_list ap; va_start(ap, fmt); int r = vfprintf(f, fmt, ap); va_end(ap); return r;
+}
 
 time_t __wrap_time(time_t *t) {
   if (t) {
